@@ -684,6 +684,9 @@ func ParseSInterP(buf string) frt.Tuple2[string, []string] {
 				res.WriteByte(c)
 				res.WriteByte(c2)
 			}
+		} else if c == '%' {
+			// result is used as format string, % must be escaped.
+			res.WriteString("%%")
 		} else if c == '{' {
 			i++
 			vbeg := i
